@@ -900,6 +900,167 @@ func UsePages(n, limit int) (string, int, bool, error) {
 	return out + "|", seen, done, nil
 }
 
+// LocalIdentity: a local error value with an identity of its own (option LocalErrorIdentity on errLimit
+// and errHalt): errors.Is and == against it recognise exactly the value the function itself produced.
+// No other error with the same type and text occurs here, which is what the option assumes.
+func LocalIdentity(n, limit int) (string, int, error) {
+	errLimit := CodeError{Msg: fmt.Sprintf("limit %d reached", limit)}
+	errHalt := errors.New("halt")
+	seen := 0
+	err := listPages(n, func(page []string) error {
+		for _, s := range page {
+			if seen >= limit {
+				break
+			}
+			seen++
+			if s == "q2" {
+				return errHalt
+			}
+			if s == "p1" && limit%3 == 1 {
+				return WrapError{Msg: "wrapped", Inner: errLimit}
+			}
+		}
+		if seen >= limit {
+			return errLimit
+		}
+		return nil
+	})
+	if err != nil {
+		if errors.Is(err, errLimit) {
+			if err == error(errLimit) {
+				return "limit", seen, err
+			}
+			return "limit inside", seen, err
+		}
+		if err == errHalt {
+			return "halt", seen, nil
+		}
+		return "other", seen, err
+	}
+	return "ok", seen, nil
+}
+
+// Store is an interface type declared Opaque in the table; its method Load is an oracle,
+// which takes the receiver: calls on two different stores are two different applications.
+type Store interface {
+	Load(k string) (string, error)
+	Name() string
+}
+
+// MemStore implements Store for the selftest.
+type MemStore struct{ Prefix string }
+
+func (m MemStore) Load(k string) (string, error) {
+	if k == "" {
+		return "", errors.New("empty key")
+	}
+	return m.Prefix + ":" + k, nil
+}
+func (m MemStore) Name() string { return m.Prefix }
+
+func UseStores(a, b Store, k string) (string, error) {
+	x, err := a.Load(k)
+	if err != nil {
+		return "", err
+	}
+	y, err := b.Load(k + "2")
+	if err != nil {
+		return x, err
+	}
+	return x + "|" + y, nil
+}
+
+func makeCode(s string) (CodeError, bool) { return CodeError{Msg: s}, s != "" }
+
+// RefusedTupleConv: the first component of the call is converted to error implicitly.
+func RefusedTupleConv(s string) (error, bool) {
+	return makeCode(s)
+}
+
+// ---- effects: oracles that act on the outside world (here: an event log) ----
+
+var events []string
+
+func ResetEvents()     { events = nil }
+func Events() []string { return append([]string{}, events...) }
+
+// emit and tryEmit are Effect oracles: the world of the selftest is the event log.
+func emit(s string) { events = append(events, s) }
+
+func tryEmit(s string) (int, error) {
+	if s == "" {
+		return 0, errors.New("empty event")
+	}
+	events = append(events, "try:"+s)
+	return len(events), nil
+}
+
+// emitTwice is a target that acts on the world because it calls effect oracles.
+func emitTwice(s string) error {
+	emit(s + "1")
+	if _, err := tryEmit(s); err != nil {
+		return err
+	}
+	emit(s + "2")
+	return nil
+}
+
+// Effects: effect calls as statements, in an if-init, in a loop, in a deferred literal that
+// reads the named result and runs at every return after the defer statement.
+func Effects(names []string, tail string) (n int, err error) {
+	if tail == "early" {
+		return -1, nil
+	}
+	emit("start")
+	defer func() {
+		if err != nil {
+			emit("cleanup")
+			return
+		}
+		emit("done")
+	}()
+	for _, s := range names {
+		if s == "x" {
+			continue
+		}
+		if err := emitTwice(s); err != nil {
+			return n, fmt.Errorf("name %d: %w", n, err)
+		}
+		n++
+	}
+	k, err := tryEmit(tail)
+	if err != nil {
+		return n, err
+	}
+	emit("tail")
+	return n + k, nil
+}
+
+// EffectTail: return f() of an effectful call, two deferred literals (last registered runs first).
+func EffectTail(s string) (int, error) {
+	defer func() { emit("bye") }()
+	emit("hi")
+	defer func() {
+		emit("first")
+	}()
+	return tryEmit(s)
+}
+
+// RefusedEffectInExpr: an effectful call inside an expression.
+func RefusedEffectInExpr(s string) bool {
+	return emitTwice(s) == nil
+}
+
+// RefusedDeferAssign: the deferred literal assigns the named result.
+func RefusedDeferAssign(s string) (err error) {
+	defer func() {
+		if s == "" {
+			err = errors.New("late")
+		}
+	}()
+	return nil
+}
+
 // newRec is an oracle with FreshResults: the record it returns may be nil and is owned by the caller.
 func newRec(s string) (*Rec, error) {
 	if s == "" {
@@ -1069,7 +1230,7 @@ var Funcs = map[string]any{
 	"ArrayRange": ArrayRange, "TimeZero": TimeZero, "JoinCollapse": JoinCollapse,
 	"InOutPtr": InOutPtr, "Variadic": Variadic,
 	"ErrKind": ErrKind, "AnySwitch": AnySwitch, "Bytes": Bytes, "Bits": Bits, "UseHolder": UseHolder,
-	"UsePages": UsePages, "OwnedPtr": OwnedPtr, "OwnedPtrPanics": OwnedPtrPanics,
+	"UsePages": UsePages, "LocalIdentity": LocalIdentity, "UseStores": UseStores, "Effects": Effects, "EffectTail": EffectTail, "OwnedPtr": OwnedPtr, "OwnedPtrPanics": OwnedPtrPanics,
 	"UseFinder": UseFinder, "UseFinderPanics": UseFinderPanics,
 }
 
